@@ -648,7 +648,11 @@ pub(crate) fn shr(lhs: Number, rhs: Number, arena: &mut Arena) -> Result<Number,
                 }
             };
 
-            let res = lhs.get_num().checked_shr(rhs).unwrap_or(0);
+            let lhs = lhs.get_num();
+            // shifting out every bit leaves the sign: 0 for non-negative, -1 for negative values
+            let res = lhs
+                .checked_shr(rhs)
+                .unwrap_or(if lhs < 0 { -1 } else { 0 });
             Ok(Number::arena_from(res, arena))
         }
         Number::Integer(lhs) => {
